@@ -64,6 +64,18 @@ def table_violations(ctx, t):
     Python; every failing row becomes a violation with its probe pair as replay"""
     fr = eqtable.failing_rows(t)
     n = 0
+    kn = t.known
+    # obligations whose failure on today's table is explained by a row that is not excluded
+    located = set()
+    if set(fr["eq_compares_every_semantic_field"]) - set(kn["knownEqRows"]):
+        located |= {"eq_compares_every_semantic_field", "unexcluded_kinds_clean"}
+    if set(fr["eq_ignores_only_nonsemantic"]) - set(kn["knownEqSpuriousRows"]):
+        located |= {"eq_ignores_only_nonsemantic", "unexcluded_kinds_clean"}
+    if set(fr["hash_respects_eq"]) - set(kn["knownEqRows"]) - set(kn["knownHashRows"]):
+        located.add("hash_respects_eq")
+    if {k for k, _ in fr["identity_kinds_documented"]} - set(kn["knownIdentityKinds"]):
+        located.add("identity_kinds_documented")
+    ctx.coverage["located_obligations"] = sorted(located)
     eq_ign = set(fr["eq_compares_every_semantic_field"])
     for (k, f) in fr["eq_compares_every_semantic_field"]:
         p = _first_probe(t, k, f, lambda p: p.eq is True or p.eq_rev is True)
@@ -342,18 +354,26 @@ def run(ctx: common.Ctx):
     missing = sorted(set(eqtable.concrete_node_classes()) - set(t.kinds))
     if missing:
         ctx.broken.append(f"translator:node-kinds-without-probe:{missing}")
-    ok = ctx.lean_obligations("PtProofs.C04", THEOREMS, extra_targets=["PtGen"])
+    # (only the table module this check owns: building all of PtGen would make this check
+    #  depend on other properties' generated files)
+    ok = ctx.lean_obligations("PtProofs.C04", THEOREMS, extra_targets=["PtGen.EqTable"])
     nviol = table_violations(ctx, t)
     ctx.note_batch("table-probes", len(t.probes), nviol, exhaustive=True,
                    note="every node kind x every (pseudo-)field x every alternative value of gen/kinds.py "
                         "+ extract/eqtable.extra_specs")
-    if not ok and nviol:
-        # the failing obligation has been located: the probe pairs are the failing inputs
-        ctx.broken = [b for b in ctx.broken if not b.startswith("lean-build:PtProofs.C04")]
-    n_graphs, n_mut = (400, 6) if ctx.thorough else (70, 3)
+    if not ok and any(b.startswith("lean-build:") for b in ctx.broken):
+        rest = eqcases.unexplained_build_errors(ctx, "PtProofs/C04.lean",
+                                                set(ctx.coverage["located_obligations"]))
+        if not rest:
+            # every failing declaration is a table obligation whose failing row has been
+            # located: the probe pairs are the failing inputs
+            ctx.broken = [b for b in ctx.broken if not b.startswith("lean-build:PtProofs.C04")]
+        else:
+            ctx.coverage["unexplained_build_errors"] = rest
+    n_graphs, n_mut = (600, 6) if ctx.thorough else (150, 3)
     pickles, per_graph = correspondence(ctx, t, ctx.seed, n_graphs, n_mut)
-    n_x = 150 if ctx.thorough else 30
-    seeds = [1, 2, 3, 4, 12345] if ctx.thorough else [1, 7]
+    n_x = 200 if ctx.thorough else 40
+    seeds = [1, 2, 3, 4, 12345] if ctx.thorough else [1, 7, 4242]
     cross_process(ctx, ctx.seed, min(n_x, n_graphs), pickles, per_graph, seeds)
     ctx.broken = sorted(set(ctx.broken))[:40]
 
@@ -374,6 +394,8 @@ def replay(ctx, path):
         print(f"expected: the pair differs in `{pr['row']}` of a {pr['kind']}; a semantic field must flip == "
               f"(and equal nodes must hash equally)")
         return 0
+    if "case" in r and r["case"].get("kind") == "xproc":
+        return eqcases.replay_xproc(ctx, r)
     if "case" in r and r["case"].get("kind") not in (None, "xproc"):
         a, b = eqcases.rebuild_case(r["case"])
         from pytato.analysis import PytatoKeyBuilder
